@@ -6,6 +6,7 @@ import (
 	"go/token"
 	"go/types"
 	"sort"
+	"strings"
 
 	"golang.org/x/tools/go/ssa"
 )
@@ -500,6 +501,80 @@ func reaches(v, target ssa.Value) bool {
 	return walk(v)
 }
 
+// pathExistsEq: like pathExists over blocks, but comparisons of `subject` with one and the same operand (== / !=) are
+// decided consistently along a path: once `subject == X` went one way, a later test against X goes the same way.
+func pathExistsEq(start *ssa.BasicBlock, subject ssa.Value, goal, avoid func(ssa.Instruction) bool, edgeOK func(b *ssa.BasicBlock, k int) bool) bool {
+	key := func(v ssa.Value) string {
+		if k, ok := v.(*ssa.Const); ok {
+			return "const:" + k.Value.String()
+		}
+		if ct, ok := v.(*ssa.Convert); ok {
+			if k, ok := ct.X.(*ssa.Const); ok {
+				return "const:" + k.Value.String()
+			}
+		}
+		return fmt.Sprintf("%p", v)
+	}
+	type state struct {
+		b     *ssa.BasicBlock
+		facts string
+	}
+	seen := map[state]bool{}
+	var walk func(b *ssa.BasicBlock, facts map[string]bool) bool
+	walk = func(b *ssa.BasicBlock, facts map[string]bool) bool {
+		ks := make([]string, 0, len(facts))
+		for k, v := range facts {
+			ks = append(ks, fmt.Sprintf("%s=%v", k, v))
+		}
+		sort.Strings(ks)
+		st := state{b, strings.Join(ks, ";")}
+		if seen[st] {
+			return false
+		}
+		seen[st] = true
+		for _, in := range b.Instrs {
+			if avoid != nil && avoid(in) {
+				return false
+			}
+			if goal(in) {
+				return true
+			}
+		}
+		for k, t := range b.Succs {
+			if edgeOK != nil && !edgeOK(b, k) {
+				continue
+			}
+			nf := facts
+			if iff, ok := b.Instrs[len(b.Instrs)-1].(*ssa.If); ok && len(b.Succs) == 2 {
+				if bo, ok := iff.Cond.(*ssa.BinOp); ok && (bo.Op == token.EQL || bo.Op == token.NEQ) {
+					other := ssa.Value(nil)
+					if reaches(bo.X, subject) {
+						other = bo.Y
+					} else if reaches(bo.Y, subject) {
+						other = bo.X
+					}
+					if other != nil {
+						eq := (bo.Op == token.EQL) == (k == 0)
+						if known, ok := facts[key(other)]; ok && known != eq {
+							continue
+						}
+						nf = map[string]bool{}
+						for a, v := range facts {
+							nf[a] = v
+						}
+						nf[key(other)] = eq
+					}
+				}
+			}
+			if walk(t, nf) {
+				return true
+			}
+		}
+		return false
+	}
+	return walk(start, map[string]bool{})
+}
+
 func c13Unterminated(c *Ctx) {
 	const rule = "C13.unterminated"
 	f, q, ch, sz := c.stringScanner()
@@ -593,8 +668,134 @@ func c13Unterminated(c *Ctx) {
 			} else {
 				c.R.Check(rule, fmt.Sprintf("open-exit#%d-diagnosed", exits), c.P.InstrPos(src.Instrs[0]), hasDiag, "a string scanner exit other than the closing quote must raise a diagnostic")
 			}
-			c.R.Check(rule, fmt.Sprintf("exit#%d(%s)-copies-pending-text", exits, kind), c.P.InstrPos(src.Instrs[0]), hasWrite, "every exit must copy text[start:pos] into the value before leaving, or the tail of the literal is lost")
+			_, _ = hasWrite, kind
 		}
+	}
+	// pending text: once the position has advanced inside the loop, no path to the return may skip the copy of
+	// text[start:pos] into the value (a position store on an exit arm, the consumed quote, needs the copy before it)
+	isPendingWrite := func(in ssa.Instruction) bool {
+		call, ok := in.(*ssa.Call)
+		if !ok {
+			return false
+		}
+		cal := calleeOf(call)
+		if cal == nil || !(cal.String() == "(*strings.Builder).Write" || cal.String() == "(*bytes.Buffer).Write" || cal.String() == "(*strings.Builder).WriteString") {
+			return false
+		}
+		for _, a := range call.Call.Args {
+			if sl, ok := a.(*ssa.Slice); ok {
+				if hi, ok := sl.High.(*ssa.UnOp); ok && isScannerField(hi.X, "pos") {
+					return true
+				}
+			}
+		}
+		return false
+	}
+	backToHeader := func(b *ssa.BasicBlock) bool {
+		seen := map[*ssa.BasicBlock]bool{}
+		var walk func(x *ssa.BasicBlock) bool
+		walk = func(x *ssa.BasicBlock) bool {
+			if x == l.Header {
+				return true
+			}
+			if seen[x] || !l.Body[x] {
+				return false
+			}
+			seen[x] = true
+			for _, s := range x.Succs {
+				if walk(s) {
+					return true
+				}
+			}
+			return false
+		}
+		for _, s := range b.Succs {
+			if walk(s) {
+				return true
+			}
+		}
+		return false
+	}
+	advances, bytewise := 0, 0
+	var exitStores []ssa.Instruction
+	exitCopied := map[ssa.Instruction]bool{}
+	// copiedBytewise: `value.Write(text[pos:pos+size]); pos += size` - the raw bytes of the character just decoded are
+	// copied before the position moves past them (writing the decoded rune instead is lossy for invalid UTF-8)
+	copiedBytewise := func(b *ssa.BasicBlock, i int) bool {
+		st := b.Instrs[i].(*ssa.Store)
+		adv, ok := st.Val.(*ssa.BinOp)
+		if !ok || adv.Op != token.ADD {
+			return false
+		}
+		if u, ok := adv.X.(*ssa.UnOp); !ok || !isScannerField(u.X, "pos") {
+			return false
+		}
+		for k := i - 1; k >= 0; k-- {
+			if st2, isSt := b.Instrs[k].(*ssa.Store); isSt && isScannerField(st2.Addr, "pos") {
+				return false
+			}
+			call, isC := b.Instrs[k].(*ssa.Call)
+			if !isC {
+				continue
+			}
+			cal := calleeOf(call)
+			if cal == nil || !(cal.String() == "(*strings.Builder).Write" || cal.String() == "(*bytes.Buffer).Write") {
+				continue
+			}
+			for _, a := range call.Call.Args {
+				sl, isS := a.(*ssa.Slice)
+				if !isS || sl.Low == nil || sl.High == nil {
+					continue
+				}
+				lo, okLo := sl.Low.(*ssa.UnOp)
+				hi, okHi := sl.High.(*ssa.BinOp)
+				if !okLo || !okHi || !isScannerField(lo.X, "pos") || hi.Op != token.ADD || hi.Y != adv.Y {
+					continue
+				}
+				if hu, ok := hi.X.(*ssa.UnOp); ok && isScannerField(hu.X, "pos") {
+					if tx, ok := sl.X.(*ssa.UnOp); ok && isScannerField(tx.X, "text") {
+						return true
+					}
+				}
+			}
+		}
+		return false
+	}
+	instrs(f, func(b *ssa.BasicBlock, i int, in ssa.Instruction) {
+		st, ok := in.(*ssa.Store)
+		if !ok || !isScannerField(st.Addr, "pos") {
+			return
+		}
+		if l.Body[b] && backToHeader(b) {
+			advances++
+			if copiedBytewise(b, i) {
+				bytewise++
+				c.R.Check(rule, fmt.Sprintf("advance#%d-pending-text-copied", advances), c.P.InstrPos(in), true, "")
+				return
+			}
+			open := pathExists(f, in, isReturn, isPendingWrite, nil)
+			c.R.Check(rule, fmt.Sprintf("advance#%d-pending-text-copied", advances), c.P.InstrPos(in), !open, "after the position has advanced inside the literal every way out must copy text[start:pos] into the value, or the tail of the literal is lost")
+			return
+		}
+		if !l.Body[b] && !(l.Header.Dominates(b)) {
+			return // before the loop: the opening quote
+		}
+		// on an exit arm (the consumed closing quote): the copy comes first, in the same iteration
+		exitStores = append(exitStores, in)
+		copied := false
+		instrs(f, func(wb *ssa.BasicBlock, _ int, w ssa.Instruction) {
+			if isPendingWrite(w) && wb != l.Header && l.Header.Dominates(wb) && instrDominates(w, in) {
+				copied = true
+			}
+		})
+		exitCopied[in] = copied
+	})
+	for _, in := range exitStores {
+		// when every advance copies its own bytes nothing is ever pending
+		c.R.Check(rule, "exit-position-store-after-copy", c.P.InstrPos(in), exitCopied[in] || (advances > 0 && bytewise == advances), "a position change on the way out of the literal must come after the pending text has been copied")
+	}
+	if advances == 0 {
+		c.R.Undecided(rule, "advance", pos, "no position advance inside the string scanner loop")
 	}
 	// end of input and line break exits exist
 	hasEOT := false
@@ -609,21 +810,46 @@ func c13Unterminated(c *Ctx) {
 	})
 	c.R.Check(rule, "end-of-input-diagnostic", pos, hasEOT, "reaching the end of input inside a literal must raise `unexpected end of text`")
 	c.R.Check(rule, "line-break-diagnostic", pos, hasLB, "a line break inside a literal must raise `unterminated string literal`")
-	// the line-break exit is guarded by IsLineBreak of the decoded rune
+	// the unterminated-literal diagnostic is raised exactly on IsLineBreak of the decoded rune: it cannot be reached
+	// within an iteration without the test having held, and once it held only the quote / backslash tests stand
+	// between it and the diagnostic
 	lbGuard := false
+	var lbTest *ssa.BasicBlock
 	instrs(f, func(b *ssa.BasicBlock, i int, in ssa.Instruction) {
 		iff, ok := in.(*ssa.If)
 		if !ok {
 			return
 		}
 		if call, ok := iff.Cond.(*ssa.Call); ok && calleeOf(call) == c.fn("IsLineBreak") && reaches(call.Call.Args[0], ch) {
-			for _, x := range b.Succs[0].Instrs {
-				if c.isScanDiag(x, "") {
-					lbGuard = true
-				}
-			}
+			lbTest = b
 		}
 	})
+	if lbTest != nil {
+		isUnterminated := func(in ssa.Instruction) bool { return c.isScanDiag(in, "M_Unterminated_string_literal") }
+		noBack := func(b *ssa.BasicBlock, k int) bool { return b.Succs[k] != l.Header }
+		// (a) not reachable from the loop header when the true edge of the test is not taken
+		without := pathExistsEq(l.Header, ch, isUnterminated, nil, func(b *ssa.BasicBlock, k int) bool {
+			return noBack(b, k) && !(b == lbTest && k == 0)
+		})
+		// (b) from the true edge, every way on (other than a character equality holding) raises it
+		charEq := func(b *ssa.BasicBlock, k int) bool {
+			iff, ok := b.Instrs[len(b.Instrs)-1].(*ssa.If)
+			if !ok || k != 0 {
+				return false
+			}
+			bo, ok := iff.Cond.(*ssa.BinOp)
+			return ok && bo.Op == token.EQL && (reaches(bo.X, ch) || reaches(bo.Y, ch))
+		}
+		t := lbTest.Succs[0]
+		skipped := false
+		if len(t.Instrs) > 0 {
+			done := func(in ssa.Instruction) bool {
+				return isReturn(in) || in.Block() == l.Header
+			}
+			skipped = !isUnterminated(t.Instrs[0]) && (done(t.Instrs[0]) || pathExists(f, t.Instrs[0], done, isUnterminated, func(b *ssa.BasicBlock, k int) bool { return !charEq(b, k) }))
+		}
+		lbGuard = !without && !skipped
+	}
 	c.R.Check(rule, "line-break-test", pos, lbGuard, "the unterminated-literal diagnostic must be raised on IsLineBreak(ch)")
 	// escapes: the backslash arm appends the decoded escape and restarts the pending range after it
 	escOK := false
